@@ -122,6 +122,11 @@ def mapRangeF (v : FVal) (inMin inMax outMin outMax : Rat) : Except Err FVal :=
     | .fin q => .ok (.fin (mapArith rnd q inMin inMax outMin outMax))
     | x => .ok x
 
+/-- the guard of the pinned tree, `value < in_min or value > in_max` (true = raise), kept
+    to state what was wrong with it (`Props.C20.pinned_map_range_guard_passes_nan`) -/
+def pinnedGuardRejects (inMin inMax : Rat) (v : FVal) : Bool :=
+  FVal.lt v (.fin inMin) || FVal.lt (.fin inMax) v
+
 def pctToDbfsF (level : FVal) : Except Err FVal :=
   if isCloseF level muteLevel then .ok (.fin muteDbfs)
   else mapRangeF rnd level pctMin pctMax dbfsMin dbfsMax
